@@ -147,6 +147,13 @@ func valueFocusSpecs() []valueFocusSpec {
 			}
 		}
 	}
+	// values left open at the very end of the file (no newline behind them): the parser's recovery differs there
+	for _, attr := range []string{"a_dyn", "a_str", "hka", "l_kw", "o_plain", "td"} {
+		for _, text := range []string{" var[\"", " var[", " var.v[\"x", " f1(", " f1(tr,", " \"abc", " {", " { first =", " [", " [inherit,", " x[\"\"]", " list(", " object({ a ="} {
+			head := "variable \"v\" {\n  type = string\n}\nvariable \"var\" {\n  type = string\n}\n"
+			out = append(out, valueFocusSpec{kind: "value-focus-eof/" + attr, src: head + attr + " =" + text, from: len(head)})
+		}
+	}
 	return out
 }
 
